@@ -180,6 +180,7 @@ func init() {
 					cc.runStage(s)
 				}
 			}
+			c10v3(cc)
 		},
 		Trusted: trustedFP,
 		Assumptions: []string{
@@ -372,6 +373,7 @@ func init() {
 				}
 			}
 			c11v4(cc)
+			c10v3(cc)
 		},
 		Trusted: trustedFP,
 		Assumptions: []string{
@@ -379,6 +381,20 @@ func init() {
 			"v2.0 EnvironmentalScore: range -0.2..10.0 as the property states (pinned by C05)",
 			"lifting from representatives to all objects: C10 frame obligations",
 		},
+	}
+}
+
+// c10v3: the relational obligations of the v3 scoring functions (dependence on effective values
+// only).  C03, C11 and C12 lift their case splits from representatives with Modified metrics X to all
+// objects through these obligations, so they discharge them too.
+func c10v3(cc *CheckCtx) {
+	for _, v := range []string{"30", "31"} {
+		T := "CVSS" + v
+		cc.runRel(relSpec{Pkg: v, Func: "(" + T + ").BaseScore", Relation: "sameBase" + v, Name: "depends_only_on_base_metrics"})
+		cc.runRel(relSpec{Pkg: v, Func: "(" + T + ").Impact", Relation: "sameBase" + v, Name: "depends_only_on_base_metrics"})
+		cc.runRel(relSpec{Pkg: v, Func: "(" + T + ").Exploitability", Relation: "sameBase" + v, Name: "depends_only_on_base_metrics"})
+		cc.runRel(relSpec{Pkg: v, Func: "(" + T + ").TemporalScore", Relation: "sameBaseTemporal" + v, Name: "depends_only_on_base_and_temporal_weights"})
+		cc.runRel(relSpec{Pkg: v, Func: "(" + T + ").EnvironmentalScore", Relation: "sameEffective" + v, Name: "depends_only_on_effective_values"})
 	}
 }
 
@@ -395,14 +411,7 @@ func init() {
 	props["C10"] = &PropDef{
 		ID: "C10",
 		Custom: func(cc *CheckCtx) {
-			for _, v := range []string{"30", "31"} {
-				T := "CVSS" + v
-				cc.runRel(relSpec{Pkg: v, Func: "(" + T + ").BaseScore", Relation: "sameBase" + v, Name: "depends_only_on_base_metrics"})
-				cc.runRel(relSpec{Pkg: v, Func: "(" + T + ").Impact", Relation: "sameBase" + v, Name: "depends_only_on_base_metrics"})
-				cc.runRel(relSpec{Pkg: v, Func: "(" + T + ").Exploitability", Relation: "sameBase" + v, Name: "depends_only_on_base_metrics"})
-				cc.runRel(relSpec{Pkg: v, Func: "(" + T + ").TemporalScore", Relation: "sameBaseTemporal" + v, Name: "depends_only_on_base_and_temporal_weights"})
-				cc.runRel(relSpec{Pkg: v, Func: "(" + T + ").EnvironmentalScore", Relation: "sameEffective" + v, Name: "depends_only_on_effective_values"})
-			}
+			c10v3(cc)
 			c10v4(cc)
 		},
 		Trusted: append(append([]string{}, trustedCommon...), "floating-point operations are uninterpreted in these obligations: what is proved holds for every interpretation, in particular IEEE-754"),
